@@ -13,7 +13,7 @@ _floors = {
     "inputs": (150000, 3000000), "tx_cases": (40000, 800000), "worlds_built": 10, "world_epoch_ge1": 3,
     # non-vacuity: well-formed objects ARE accepted by the node the harness built
     "accepted:Vote": (100, 2000), "accepted:NewTx": (100, 2000), "accepted:ProposeBlock": (15, 300), "accepted:Block": (50, 1000),
-    "accepted:FlipKey": (2, 40), "accepted:FlipKeysPackage": (2, 40), "accepted:FlipBody": (3, 60), "accepted:Handshake": (50, 1000),
+    "accepted:FlipKey": (2, 12), "accepted:FlipKeysPackage": (2, 12), "accepted:FlipBody": (3, 60), "accepted:Handshake": (50, 1000),
     "accepted:SnapshotManifest": (300, 6000), "answered:GetBlockByHash": (50, 1000), "answered:GetBlocksRange": (200, 4000),
     "answered:GetForkBlockRange": (200, 4000), "answered:Pull": (15, 300),
     "fork_found_applicable": (20, 400), "sync_applied_blocks": (100, 2000), "next_block_confirmed": (1, 20),
